@@ -345,6 +345,12 @@ NoCatchAfterEnd == [][EndDone => catches' = catches]_vars
 (* an End call that started eventually returns *)
 EndReturns == \A i \in Closers : (epc[i] = "melt") ~> (epc[i] = "done")
 
+(* the safety shadow of EndReturns: a state in which every goroutine is parked
+   and no rendezvous attempt is in flight has no End call pending - what is
+   pending there could only be released by an (unfair) environment step.  This
+   is what the replay harness observes at its final observation. *)
+NoStuckEnd == (Quiescent /\ cpc # "catching") => \A i \in Closers : epc[i] \in {"idle", "done", "panicked"}
+
 (* sanity of the lock model *)
 LockOK ==
   /\ (lockHolder = -1) <=> (cpc \in {"locked", "count", "catchstart", "catching", "push", "send", "unlock"})
